@@ -175,6 +175,7 @@ let () =
             let input = chars input in
             let dw = chars dw in
             let plain a = Model.parse (step g) fuel a in
+            let flags = ref None in
             let run_d (type r) (d : r dprog) : r option =
               match mode with
               | A "none" -> drun plain d
@@ -182,8 +183,9 @@ let () =
                 let size = natopt sz in
                 snd (drunc (fun c a -> parsec (step g) args_eqb size fuel c a) [] d)
               | L [A "lr"; cap] ->
-                (match drunm (fun m a -> parse_lr g fuel m a) (memo_empty (natopt cap)) d with
-                 | Some (r, _) -> Some r
+                (* the instrumented handler of Model/LRT.v: same outcome and memo as parse_lr (Props/C03.v, C03_erasure) *)
+                (match drunm_t (fun m a -> parse_lr_t g fuel m a) (memo_empty (natopt cap)) d with
+                 | Some ((r, _), fl) -> flags := Some fl; Some r
                  | None -> None)
               | _ -> failwith "mode" in
             (match entry with
@@ -214,7 +216,13 @@ let () =
                 | Model.POk0 (l, ts) -> pr "(ok "; pint (int_of_nat l); pr " ("; List.iteri (fun i t -> if i > 0 then pr " "; ptok t) ts; pr "))"
                 | PFail -> pr "fail" | Model.PDiv0 -> pr "div" | POut -> pr "out");
                pr ")"
-             | _ -> failwith "entry")
+             | _ -> failwith "entry");
+            (match !flags with
+             | Some fl ->
+               let b x = if x then "1" else "0" in
+               pr " #flags "; pr (b fl.seed_read); pr (b fl.seed_returned); pr (b fl.peek_tainted); pr (b fl.peek_replaced);
+               pr (b fl.peek_error); pr (b fl.key_error)
+             | None -> ())
           | _ -> failwith "case"
         with
         | Stack_overflow -> let id = (try String.sub (Buffer.contents buf) 0 (String.index (Buffer.contents buf) ' ') with Not_found -> "?") in Buffer.clear buf; pr id; pr " (oof)"
